@@ -32,6 +32,13 @@ def codec(rnd, n_each, sid="Q"):
                 t["mut"] = rnd.choice(["pre-check-long", "pre-check-tail", "pre-check-leadzero", "pre-check-single", "pre-check-highs"])
                 continue
             r = rnd.random()
+            if r < 0.12:
+                # the boundary of the short form: an item of exactly 55 bytes (and its neighbours) written in the long form
+                t["payload"] = rnd.choice([54, 55, 55, 55, 56])
+                t["mut"] = "nc-long:6"
+                t.pop("nonce", None)
+                t.pop("chain", None)
+                continue
             t["mut"] = rnd.choice(POST) if r < 0.6 else rnd.choice(PRE) if r < 0.85 else rnd.choice(SIG)
             t.pop("nonce", None)
             t.pop("chain", None)
